@@ -137,6 +137,7 @@ pub fn def() -> PropDef {
         needs_pairing: false,
         subs: vec![
             Box::new(crate::engine::EnumSub { name: "long-history", rule: super::longhist::RULE, run: run_long_history, replay: super::longhist::replay, exhaustive: false }),
+            Box::new(crate::engine::EnumSub { name: "two-input-bursts", rule: super::longhist::BURST_RULE, run: run_two_input_bursts, replay: super::longhist::replay_burst, exhaustive: false }),
             Box::new(Sub { name: "g1-clear-h", rule: "G1 clear_h vs model [0xd201000000010001]P", quick: 3_000, thorough: 40_000, strategy: || boxed(clear_case_strategy(0)), check: check_clear_any }),
             Box::new(Sub { name: "related-sequences", rule: "the same point in other representatives / negated, cleared back to back, each compared with the model", quick: 300, thorough: 15_000, strategy: || boxed(clear_seq_strategy()), check: check_clear_seq }),
             Box::new(Sub { name: "g2-clear-h", rule: "G2 clear_h vs model [3(x^2-1)h2]P", quick: 500, thorough: 8_000, strategy: || boxed(clear_case_strategy(1)), check: check_clear_any }),
